@@ -5,7 +5,7 @@ from __future__ import annotations
 import itertools
 import json
 
-from vlib import core, jssp
+from vlib import core, jssp, translate
 from vlib.core import g_bool, g_opt, g_str, g_z
 
 IMPORTS = "From QV Require Import Jssp.Valid Jssp.ResultObj Jssp.C19Check."
@@ -266,6 +266,7 @@ def exhaustive_small(ctx):
 
 
 def run(ctx):
+    translate.check_link(ctx, "C19")  # regenerate Gallina from /repo's current source; link lemmas coq/link/C19Link.v
     ctx.rule = ("random valid instances (1-3 jobs, 1-3 machines) x start assignments from {unscheduled,-1..7} (half near-feasible), dict order shuffled; "
                 "constructor arguments from a small malformed alphabet; distinct = distinct (kind, data); non-trivial = verdict cases with >=2 operations, constructor cases always")
     cases = []
@@ -301,6 +302,8 @@ def run(ctx):
 
 
 def replay(ctx, payload):
+    if translate.is_link_replay(payload) and not payload.get("failing_input"):
+        return translate.replay(ctx, payload, "C19")
     c = payload.get("case") or payload.get("failing_input")
     g = do_case(ctx, c)
     print("impl-vs-definition:", "FAILS" if ctx.violations else "ok")
